@@ -188,15 +188,8 @@ fn c09_arith_mul() {
     assert!(same_f64(num_val(Value::Number(a) * Value::Number(b)), a * b));
 }
 
-//@harness name=c09_arith_div fn=xpath::op::div ob=ieee754_division kind=complete inputs=a0:f64n,a1:f64n op=xpath.op.div props=C09 tier=thorough
-//@        claim="for all f64 a, b: a div b on Value::Number is the IEEE 754 quotient (x div 0 = +-inf, 0 div 0 = NaN)"
-#[kani::proof]
-fn c09_arith_div() {
-    let a: f64 = kani::any();
-    let b: f64 = kani::any();
-    kani::cover!(b == 0.0 && a > 0.0);
-    assert!(same_f64(num_val(Value::Number(a) / Value::Number(b)), a / b));
-}
+// `div`: a harness `same_f64(Number(a) / Number(b), a / b)` over all f64 pairs did not finish in 40 minutes with either SAT
+// back end (CBMC's IEEE 754 division circuit): the division clause is NOT decided.
 
 //@harness name=c09_arith_neg fn=xpath::op::neg ob=unary_minus_negates kind=complete inputs=a0:f64n op=xpath.op.neg props=C09
 //@        claim="for every f64 a: -a has the magnitude of a and, for a != 0, the opposite sign; NaN stays NaN (the sign of a zero result is left open: XPath 1.0 does not spell it out)"
